@@ -91,6 +91,10 @@ def states(tier):
         for e in ('three', 'special'):
             for su, ln in ((0, 0), (1, 1)):
                 S.append(dict(base, ids=u + g, env=e, sudo=su, logname=ln, exec2=1))
+    # (b8b) ... with the login variables as the last strings below the top of the new image's stack
+    for su, ln in ((0, 1), (1, 0), (1, 1), (0, 254), (254, 1)):
+        for e in ('empty', 'three'):
+            S.append(dict(base, env=e, sudo=su, logname=ln, exec2=1, lognamelast=1))
     # (b5) ancestor chain of length one: orphaned process (parent is init / a subreaper), with and without a renamed chain above
     for ch in ('', 'alpha', 'alpha/beta b'):
         for ss in (0, 1):
@@ -109,7 +113,7 @@ def base_state():
 
 def spec_of(st, ds, work):
     parts = ['ids=%s' % ','.join(map(str, st['ids'])), 'setsid=%d' % st['setsid'], 'cwd=' + st['cwd'], 'stdin=' + st['stdin'], 'env=' + st['env'], 'sudo=%d' % st['sudo'], 'logname=%d' % st['logname'],
-             'host=' + st['host'], 'ptyowner=%d' % st['ptyowner'], 'orphan=%d' % st.get('orphan', 0), 'tz=' + st.get('tz', 'UTC'), 'newpgrp=%d' % st.get('newpgrp', 0), 'pwd=' + st.get('pwd', 'none'), 'exec2=%d' % st.get('exec2', 0), 'forked=%d' % st.get('forked', 0), 'work=' + work, 'ds=' + ','.join(hx(d) for d in ds)] + (['cgfile=' + hx(st['cgfile'])] if st.get('cgfile') else []) + (['etc=' + st['etc']] if st.get('etc') else []) + (['tz2=' + st['tz2']] if st.get('tz2') else [])
+             'host=' + st['host'], 'ptyowner=%d' % st['ptyowner'], 'orphan=%d' % st.get('orphan', 0), 'tz=' + st.get('tz', 'UTC'), 'newpgrp=%d' % st.get('newpgrp', 0), 'pwd=' + st.get('pwd', 'none'), 'exec2=%d' % st.get('exec2', 0), 'forked=%d' % st.get('forked', 0), 'work=' + work, 'ds=' + ','.join(hx(d) for d in ds)] + (['cgfile=' + hx(st['cgfile'])] if st.get('cgfile') else []) + (['etc=' + st['etc']] if st.get('etc') else []) + (['tz2=' + st['tz2']] if st.get('tz2') else []) + (['lognamelast=1'] if st.get('lognamelast') else [])
     if st['chain']:
         parts.append('chain=' + '/'.join(hx(n) for n in st['chain'].split('/')))
     return ';'.join(parts)
